@@ -1,6 +1,6 @@
 (** C04 over the Go source (Generated/Src.v: ValidateTOTP as translated from totp.go). *)
 From Coq Require Import String.
-From OtpV Require Import Prelude Sha GoSem Tables Decoder Derive Otp Rfc4226 Errors OtpProofs Src SrcLift SrcEqOtp SrcTop C04.
+From OtpV Require Import Prelude Sha GoSem Tables Decoder Derive Otp Rfc4226 Errors OtpProofs Src SrcLift SrcTop SrcEqDecode SrcEqValidate SrcEqTotp C04.
 Open Scope N_scope.
 
 Theorem C04src_iff : forall fuel junk secret key code unix d per s a,
